@@ -17,6 +17,8 @@ Require Import Cirbo.Generated.SearchTables Cirbo.Generated.GateTypes.
 Require Import Cirbo.Proofs.SearchTablesFacts Cirbo.Proofs.SearchFacts Cirbo.Proofs.SearchSound
                Cirbo.Proofs.SearchComplete Cirbo.Proofs.SearchSolve Cirbo.Proofs.SearchTyped
                Cirbo.Proofs.SearchSolverExists.
+Require Import Cirbo.Model.SearchPy Cirbo.Generated.SearchEncGen Cirbo.Proofs.SearchEncGenLib Cirbo.Proofs.SearchEncGenB
+               Cirbo.Proofs.SearchEncGenC.
 Local Open Scope nat_scope.
 
 (* ---------- the regenerated tables (translator T3) ------------------- *)
@@ -120,6 +122,50 @@ Proof. exact sound_complete_solver_exists. Qed.
 Theorem C06_validb_decides : forall sp c, validb sp c = true <-> Valid sp c.
 Proof. exact validb_spec. Qed.
 
+(* ---------- the regenerated encoder (translator T17) ------------------ *)
+(* Generated/SearchEncGen.v is written from the statements of CircuitFinderSat on every check (gen_<method>; the
+   IDPool as the structured variables, exceptions as `sres`).  fin sp c b1 b2 is the object the regenerated
+   constructor builds for the spec, with clause list c and the flags _need_check_db = b1, _need_init_cnf = b2;
+   table_ok sp: every row of the model truth table has a cell for each of the 2^n input vectors (the encoder
+   indexes them); cons_result (Proofs/SearchEncGenB.v) spells out check_constraint / check_constraint_type /
+   cons_clauses as one result.  Each regenerated method EQUALS the hand model above: clause list in order, flags,
+   error raised. *)
+Theorem C06_encoder_regenerated :
+  ((forall sp, gen___init__ (fm_of sp) (sp_r sp) (sp_norm sp) (sp_basis sp) (sp_forb sp) = fin sp [] true true)
+  /\ (forall sp c b1 b2, f__cnf (fin sp c b1 b2) = c /\ f__need_check_db (fin sp c b1 b2) = b1 /\
+                         f__need_init_cnf (fin sp c b1 b2) = b2)
+  /\ (forall sp c b1 b2 g a b, In g (internal sp) -> a < b -> b < g ->
+        gen__predecessors_variable (fin sp c b1 b2) g a b = SOk (pos (VS g a b)))
+  /\ (forall sp c b1 b2 h g, h < sp_m sp -> g < sp_n sp + sp_r sp ->
+        gen__output_gate_variable (fin sp c b1 b2) h g = SOk (pos (VG h g)))
+  /\ (forall sp c b1 b2 g t, g < sp_n sp + sp_r sp -> t < 2 ^ sp_n sp ->
+        gen__gate_value_variable (fin sp c b1 b2) g t = SOk (pos (VX g t)))
+  /\ (forall sp c b1 b2 g p q, g < sp_n sp + sp_r sp -> p <= 1 -> q <= 1 ->
+        gen__gate_type_variable (fin sp c b1 b2) g p q = SOk (pos (VF g (nz p) (nz q))))
+  /\ (forall sp c b1 b2 t, table_ok sp -> t < 2 ^ sp_n sp ->
+        gen__is_dont_cares_input (fin sp c b1 b2) t = SOk (all_dc sp t))
+  /\ (forall sp c b1 b2 ls, gen__add_exactly_one_of (fin sp c b1 b2) ls = SOk (fin sp (c ++ exactly_one ls) b1 b2))
+  /\ (forall sp c b1 b2, table_ok sp ->
+        gen__init_default_cnf_formula (fin sp c b1 b2) = SOk (fin sp (c ++ default_cnf sp) b1 b2))
+  /\ (forall sp c b1 b2 g fp sd gt,
+        gen_fix_gate (fin sp c b1 b2) g fp sd gt = cons_result sp (FixGate g fp sd gt) c b2)
+  /\ (forall sp c b1 b2 from to,
+        gen_forbid_wire (fin sp c b1 b2) from to = cons_result sp (ForbidWire from to) c b2)
+  /\ (forall sp c b1 binit, table_ok sp ->
+        gen_get_cnf (fin sp c b1 binit) =
+        let c' := if binit then c ++ default_cnf sp else c in SOk (fin sp c' b1 false, c'))
+  /\ (forall sp, table_ok sp -> (forall k, In k (sp_pre sp ++ sp_post sp) -> constraint_ok sp k = true) ->
+        gen_session sp = SOk (encode sp)))
+  (* the DECODER _get_circuit_by_model on a model list (asg_of_model: v is true iff its positive literal is in
+     the list) that says something about every predecessor variable (the source asserts it), sets no output
+     variable at an input gate (such names are not in the pool when the solver runs) and selects a pair for
+     every gate: the Circuit built by decode + _tt_to_gate_type + build_circuit, or the same error *)
+  /\ (forall sp c b1 b2 model ck, model_total sp model -> no_input_outputs sp model ->
+        decode sp (asg_of_model model) = Ok ck ->
+        gen__get_circuit_by_model (fin sp c b1 b2) model =
+        lift (build_circuit (sp_n sp) (to_typed tt_to_gate_type ck))).
+Proof. exact encoder_decoder_regenerated. Qed.
+
 (* ---------- non-vacuity ---------------------------------------------- *)
 (* x0 xor x1 with a don't-care, one gate, basis XAIG (forbidden = the five other operations),
    normalised, gate 2 fixed to read input 1 through a lone second_predecessor *)
@@ -147,6 +193,36 @@ Example C06_example_valid : ValidT tt_to_gate_type ex_spec (mkTCkt [mkTG 0 1 XOR
 Proof.
   destruct (C06_soundness_typed ex_spec ex_sigma C06_example_wf C06_example_satisfiable) as [c [Hd Hv]].
   rewrite C06_example_decodes in Hd. inversion Hd; subst. exact Hv.
+Qed.
+
+(* the regenerated session on the example spec (its table is well shaped, its constraint accepted) *)
+Example C06_example_regenerated_session : table_ok ex_spec /\ gen_session ex_spec = SOk (encode ex_spec).
+Proof.
+  split; [repeat constructor|].
+  apply encoder_regenerated; [repeat constructor|].
+  intros k Hk. pose proof C06_example_wf as W. apply (wf_cons _ W). exact Hk.
+Qed.
+
+(* the regenerated decoder on the model list of ex_sigma: the hypotheses of the decoder clause hold *)
+Definition ex_model : list lit :=
+  map pos [VS 2 0 1; VG 0 2; VX 1 1; VX 0 3; VX 1 3; VX 2 1; VF 2 false true; VF 2 true false].
+
+Example C06_example_regenerated_decoder :
+  model_total ex_spec ex_model /\ no_input_outputs ex_spec ex_model /\
+  decode ex_spec (asg_of_model ex_model) = Ok (mkCkt [mkSG 0 1 (false, true, true, false)] [2]) /\
+  gen__get_circuit_by_model (fin ex_spec [] true true) ex_model =
+  lift (build_circuit 2 (mkTCkt [mkTG 0 1 XOR] [2])).
+Proof.
+  assert (Ht : model_total ex_spec ex_model).
+  { intros g a b Hg Hab Hbg. apply in_internal in Hg. cbn in Hg.
+    assert (g = 2) by lia. assert (b = 1) by lia. assert (a = 0) by lia. subst. left. reflexivity. }
+  assert (Hn : no_input_outputs ex_spec ex_model).
+  { intros h i Hh Hi. cbn in Hh, Hi. assert (h = 0) by lia. subst.
+    destruct i as [|[|i]]; [reflexivity|reflexivity|lia]. }
+  assert (Hd : decode ex_spec (asg_of_model ex_model) = Ok (mkCkt [mkSG 0 1 (false, true, true, false)] [2]))
+    by (vm_compute; reflexivity).
+  split; [exact Ht|]. split; [exact Hn|]. split; [exact Hd|].
+  exact (proj2 C06_encoder_regenerated ex_spec [] true true ex_model _ Ht Hn Hd).
 Qed.
 
 (* the class can be empty: one input leaves no pair of predecessors for the first gate, the CNF
